@@ -601,10 +601,22 @@ def _newton(ctx):
     func = nested.get(kw["func"].id) if isinstance(kw.get("func"), ast.Name) else None
     fpr = nested.get(kw["fprime"].id) if isinstance(kw.get("fprime"), ast.Name) else None
     env = {}
+    from ..astutil import inline_single_defs as _isd
     for s in f.node.body:
-        if isinstance(s, ast.Assign) and isinstance(s.targets[0], ast.Tuple) and call_name(s.value) == "self._get_abs_sign":
-            env[s.targets[0].elts[0].id] = "abs"
-            env[s.targets[0].elts[1].id] = "sign"
+        # (|x|, sign x) = self.<helper>(x): the helper is recognised by what it returns, not by its name
+        if isinstance(s, ast.Assign) and isinstance(s.targets[0], ast.Tuple) and len(s.targets[0].elts) == 2 and \
+                isinstance(s.value, ast.Call) and is_self_attr(s.value.func) and all(isinstance(t_, ast.Name) for t_ in s.targets[0].elts):
+            h_ = prog.lookup_method(ci, s.value.func.attr)
+            rr = [x_ for x_ in h_.node.body if isinstance(x_, ast.Return)] if h_ is not None else []
+            rv = _isd(h_.node, rr[-1].value) if rr and rr[-1].value is not None else None
+            if isinstance(rv, ast.Tuple) and len(rv.elts) == 2:
+                for t_, e_ in zip(s.targets[0].elts, rv.elts):
+                    if call_name(e_) in ("np.fabs", "np.abs", "abs"):
+                        env[t_.id] = "abs"
+                    elif call_name(e_) == "np.sign":
+                        env[t_.id] = "sign"
+    if "abs" not in env.values() or "sign" not in env.values():
+        raise AnalysisError("RambergOsgood.stress: the split of the strain into magnitude and sign was not found")
     ok = func is not None
     if ok:
         r = func.body[-1].value
